@@ -198,6 +198,7 @@ USE_NAME = '''def use_name(name):
 
 # the statements of lint() around the two loops, in order ('<usage>' / '<report>' mark the loops)
 LINT_FRAME = [
+    'cycle_guard.request()',
     'source = Source(source, filename)',
     "try:\n    source.tree\nexcept SyntaxError as e:\n    return [('E01', e.msg, e.lineno, e.offset, None)]",
     'if debug:\n    from .util import print_dump\n    print_dump(source.tree)',
